@@ -68,12 +68,12 @@ def scale_files(tier):
         ['diff', sized_text(4097, 'one').encode(), None, None, None],
         ['file', None], M], 'utf-8')
     out.append(('scale-8k', b))
-    if tier == 'thorough':
-        b, _ = spec.serialize([
-            ['change', None], ['file', None], M,
-            ['diff', sized_text(65537, 'lines').encode(), None, None, None],
-            ['file', None], M], 'utf-8')
-        out.append(('scale-64k', b))
+    b, _ = spec.serialize([
+        ['change', None], ['file', None], M,
+        ['diff', sized_text(65537 + 700, 'lines').encode(), None, None,
+         None],
+        ['file', None], M], 'utf-8')
+    out.append(('scale-64k', b))
     return out
 
 
@@ -208,7 +208,9 @@ def _s(x):
 PERTURB = ['+1', '+2', '+3', '+4', '+5', '+6', '+7', '+8', '-1', '-2', '-3',
            '-4', '-5', '-6', '-7', '-8', '=0', '=-1', '=-5', '=abc', '=1.5',
            '=1_0', '=0x10', '=007', '=99999999999999999999', '=+5', '= 5',
-           '=', 'drop']
+           '=', 'drop', '-9', '-40', '-41', '-100', '-1000', '+40', '+1000',
+           '=1024', '=4096', '=8192', '=65536', '=65537', '=1048576',
+           '=4294967296']
 
 
 def perturb(data, span, rec, p):
@@ -240,8 +242,16 @@ def check_perturb(name, data, ref, lay, hi, p):
     v = []
     sid = recs0[hi]['section']
     kind = sid.lstrip('.')
-    tag = p if p[0] == '=' or p == 'drop' else ('plus' if p[0] == '+'
-                                                else 'minus')
+    L0 = recs0[hi]['options']['length']
+    if p[0] == '+':
+        tag = 'larger'
+    elif p[0] == '-':
+        tag = 'smaller'
+    elif p != 'drop' and re.fullmatch(r'=[0-9]+', p) and len(p) < 19:
+        tag = 'larger' if int(p[1:]) > L0 else (
+            'smaller' if int(p[1:]) < L0 else 'same')
+    else:
+        tag = p
     if exc is not None and not isinstance(exc, DiffXParseError):
         v.append(('perturb:other-exception:%s:%s' % (type(exc).__name__,
                                                      site_of(exc)),
